@@ -217,7 +217,7 @@ def cmp_streams(go_streams, model_streams, scale=1.0):
 
 
 # ---------------------------------------------------------------- Lean obligations
-EXTRA_MODULES = {'C01': ['C01Gen']}
+EXTRA_MODULES = {'C01': ['C01Gen'], 'C18': ['C18Gen']}
 
 
 def lean_obligations(prop):
